@@ -4,6 +4,7 @@
 #include <cstdio>
 #include <cstdlib>
 #include <vector>
+#include <unordered_map>
 int main(int argc,char**argv){ unsigned seed = argc>1?atoi(argv[1]):1; srand(seed); unsigned long h=1469598103934665603ul;
   for(int round=0;round<200;round++){ std::map<int,int> m; std::list<int> l, l2;
     for(int i=0;i<60;i++){ int k=rand()%40; int op=rand()%4;
@@ -11,4 +12,5 @@ int main(int argc,char**argv){ unsigned seed = argc>1?atoi(argv[1]):1; srand(see
       if(op==0) l.push_back(k); else if(op==1) l.push_front(k); else if(op==2 && !l.empty()) { l2.splice(l2.end(), l, l.begin()); } else { l.swap(l2); }
     }
     for(auto&p:m) h=(h^(p.first*31+p.second))*1099511628211ul; for(int x:l) h=(h^x)*1099511628211ul; for(int x:l2) h=(h^(x+7))*1099511628211ul; l.sort(); for(int x:l) h=(h^x)*1099511628211ul; }
+  { std::unordered_map<int,int> m; for(int i=0;i<300;i++){ m[i*7]=i; h=h*31+m.bucket_count(); if(i%50==0) m.erase(i*7); } }
   printf("%lu\n",h); return 0; }
